@@ -294,6 +294,42 @@ impl Profile {
                 p.max_log = 40;
                 p.steps = 300;
             }
+            "s_lagread" => {
+                p.script = "lag_read".into();
+                p.w_crash = 0;
+                p.w_partition = 0;
+                p.proposals = 24;
+                p.max_log = 30;
+            }
+            "s_confbatch" => {
+                p.ids = vec![1, 2, 3, 4];
+                p.voters = vec![1, 2, 3];
+                p.script = "conf_batch".into();
+                p.w_crash = 0;
+                p.w_partition = 0;
+                p.conf_changes = 12;
+                p.max_log = 40;
+                p.proposals = 20;
+            }
+            "s_lagsnap_live" => {
+                p.script = "lag_snap".into();
+                p.w_crash = 0;
+                p.w_partition = 0;
+                p.w_dup = 4;
+                p.proposals = 24;
+                p.max_log = 30;
+                p.stabilize_rounds = 50;
+            }
+            "s_transfer_live" => {
+                p.ids = vec![1, 2, 3];
+                p.voters = vec![1, 2, 3];
+                p.script = "transfer_race".into();
+                p.check_quorum = true;
+                p.w_crash = 0;
+                p.w_partition = 0;
+                p.w_drop = 5;
+                p.stabilize_rounds = 50;
+            }
             "contend" => {
                 p.ids = vec![1, 2, 3, 4];
                 p.voters = vec![1, 2, 3, 4];
@@ -361,6 +397,9 @@ pub struct Sched {
     pub rng: StdRng,
     pub prof: Profile,
     pub blocked: Vec<(u64, u64)>,
+    /// (to, message type) pairs that are lost in transit (selective loss used by scripted scenarios)
+    pub blocked_types: Vec<(u64, String)>,
+    pub w_apply: u32,
     pub proposals_left: usize,
     pub conf_left: usize,
     pub reads_left: usize,
@@ -429,6 +468,8 @@ impl Sched {
             prof,
             rng,
             blocked: vec![],
+            blocked_types: vec![],
+            w_apply: 20,
             next_payload: 1,
             next_ctx: 1,
             tick_ptr: 0,
@@ -578,10 +619,10 @@ impl Sched {
                 let lo = f.index.max(slot.app.applied);
                 if b.index >= lo {
                     let k = self.rng.gen_range(lo..=b.index);
-                    cands.push((20, Choice::Apply { n, k }));
+                    cands.push((self.w_apply, Choice::Apply { n, k }));
                 }
             } else if raw.raft.raft_log.applied < slot.app.applied {
-                cands.push((20, Choice::Apply { n, k: slot.app.applied }));
+                cands.push((self.w_apply, Choice::Apply { n, k: slot.app.applied }));
             }
             if self.proposals_left > 0 && max_last < p.max_log {
                 cands.push((
@@ -687,7 +728,8 @@ impl Sched {
                 let mv = msg_view(m);
                 let to_ok = p.ids.contains(&m.to) && cl.is_up(m.to);
                 let idle = to_ok && cl.nodes[cl.slot(m.to)].app.outstanding.is_none();
-                if !p.ids.contains(&m.to) || !cl.is_up(m.to) || self.is_blocked(m.from, m.to) {
+                let ty_blocked = self.blocked_types.iter().any(|(t, ty)| *t == m.to && *ty == mv.ty);
+                if !p.ids.contains(&m.to) || !cl.is_up(m.to) || self.is_blocked(m.from, m.to) || ty_blocked {
                     cands.push((p.w_deliver / 2 + 1, Choice::Drop { m: mv }));
                     continue;
                 }
@@ -1266,19 +1308,84 @@ impl Sched {
             }
             "lag_snap" => {
                 self.prof.w_compact = 0;
-                let l = match self.until_leader(cl, out, 400) {
-                    Some(l) => l,
-                    None => return,
-                };
-                let f = *ids.iter().filter(|x| **x != l).collect::<Vec<_>>().choose(&mut self.rng).unwrap().clone();
-                self.isolate(&[f], &ids);
-                self.run_steps(cl, out, 200);
-                self.prof.w_compact = 10;
-                self.run_steps(cl, out, 120);
-                self.blocked.clear();
-                self.prof.w_reqsnap = 3;
-                self.reads_left = 4;
-                self.run_steps(cl, out, 350);
+                if self.until_leader(cl, out, 400).is_none() {
+                    return;
+                }
+                for _ in 0..3 {
+                    let l = match Self::leader_of(cl) {
+                        Some(l) => l,
+                        None => {
+                            self.run_steps(cl, out, 60);
+                            continue;
+                        }
+                    };
+                    let f = *ids.iter().filter(|x| **x != l).collect::<Vec<_>>().choose(&mut self.rng).unwrap().clone();
+                    self.isolate(&[f], &ids);
+                    self.proposals_left = self.proposals_left.max(5);
+                    self.prof.w_compact = 0;
+                    self.run_steps(cl, out, 120);
+                    self.prof.w_compact = 10;
+                    self.run_steps(cl, out, 70);
+                    self.blocked.clear();
+                    self.prof.w_reqsnap = 3;
+                    self.reads_left = 2;
+                    self.run_steps(cl, out, 200);
+                }
+            }
+            "lag_read" => {
+                if self.until_leader(cl, out, 400).is_none() {
+                    return;
+                }
+                for _ in 0..4 {
+                    let l = match Self::leader_of(cl) {
+                        Some(l) => l,
+                        None => {
+                            self.run_steps(cl, out, 60);
+                            continue;
+                        }
+                    };
+                    let f = *ids.iter().filter(|x| **x != l).collect::<Vec<_>>().choose(&mut self.rng).unwrap().clone();
+                    // the follower stays connected (heartbeats, reads) but misses the appends
+                    self.blocked_types = vec![(f, "App".into())];
+                    self.proposals_left = self.proposals_left.max(4);
+                    self.run_steps(cl, out, 90);
+                    for k in 0..3 {
+                        let ctx = format!("q{}{}", self.next_ctx % 10, k);
+                        self.next_ctx += 1;
+                        self.do_choice(cl, out, Choice::ReadIndex { n: f, ctx });
+                        self.run_steps(cl, out, 25);
+                    }
+                    self.blocked_types.clear();
+                    self.run_steps(cl, out, 80);
+                }
+            }
+            "conf_batch" => {
+                if self.until_leader(cl, out, 400).is_none() {
+                    return;
+                }
+                self.w_apply = 2;
+                for _ in 0..6 {
+                    let l = match Self::leader_of(cl) {
+                        Some(l) => l,
+                        None => {
+                            self.run_steps(cl, out, 60);
+                            continue;
+                        }
+                    };
+                    let (_, tr, ch) = self.random_cc(cl);
+                    let mut e1 = crate::view::EntryV { ty: "N".into(), ..Default::default() };
+                    e1.p = self.payload();
+                    let e2 = crate::view::EntryV { ty: "C2".into(), tr, ch, sz: 1, ..Default::default() };
+                    let ents = if self.rng.gen_bool(0.7) { vec![e1, e2] } else { vec![e2, e1] };
+                    self.do_choice(cl, out, Choice::ProposeBatch { n: l, ents });
+                    self.run_steps(cl, out, 40);
+                    let (v1, tr, ch) = self.random_cc(cl);
+                    self.do_choice(cl, out, Choice::ProposeConf { n: l, v1, tr, ch });
+                    self.run_steps(cl, out, 60);
+                    self.w_apply = 20;
+                    self.run_steps(cl, out, 40);
+                    self.w_apply = 2;
+                }
             }
             "transfer_race" => {
                 let l = match self.until_leader(cl, out, 400) {
@@ -1354,8 +1461,17 @@ impl Sched {
             }
             "conf_mix" => {
                 let _ = self.until_leader(cl, out, 400);
-                let steps = self.prof.steps;
-                self.run_steps(cl, out, steps);
+                for round in 0..6 {
+                    self.w_apply = if round % 2 == 0 { 3 } else { 20 };
+                    if round % 3 == 2 {
+                        // a random minority is cut off for a while (commits must not depend on it wrongly)
+                        let a = *ids.choose(&mut self.rng).unwrap();
+                        let b = *ids.choose(&mut self.rng).unwrap();
+                        self.isolate(&[a, b], &ids);
+                    }
+                    self.run_steps(cl, out, 130);
+                    self.blocked.clear();
+                }
             }
             _ => {}
         }
